@@ -47,6 +47,19 @@ pub fn interp(label: u32, a: &[u64]) -> Vec<u64> {
         9 => vec![a[1], a[0]],
         10 => vec![a[0].wrapping_add(a[1]).wrapping_add(a[2])],
         11 => vec![],
+        12 => vec![a[0] | a[1]],
+        13 => vec![a[0].wrapping_shl((a[1] % 64) as u32)],
+        14 => vec![a[0].wrapping_shr((a[1] % 64) as u32)],
+        15 => vec![if a[1] == 0 { 0 } else { a[0] / a[1] }],
+        // generic m -> n test operation: 400 + 10*k + n
+        l if (400..500).contains(&l) => {
+            let n = ((l - 400) % 10) as u64;
+            let k = ((l - 400) / 10) as u64;
+            let s = a.iter().enumerate().fold(k, |acc, (i, x)| acc.wrapping_mul(31).wrapping_add(x.wrapping_mul(i as u64 + 2)));
+            (0..n).map(|j| s.wrapping_add(j.wrapping_mul(7))).collect()
+        }
+        // copy 1 -> N: 300 + N
+        l if (300..400).contains(&l) => vec![a[0]; (l - 300) as usize],
         l if (100..200).contains(&l) => vec![(l - 100) as u64],
         // "shape only" operations for the refusal clause: 200 + number of outputs
         l if l >= 200 => vec![7; (l - 200) as usize],
@@ -56,6 +69,10 @@ pub fn interp(label: u32, a: &[u64]) -> Vec<u64> {
 
 /// reference interpreter: memoised recursion over "who writes this node"
 pub fn reference(d: &Diagram, inputs: &[u64]) -> (Vec<u64>, Vec<(u32, Vec<u64>)>) {
+    reference_with(d, inputs, &|e: &Edge, a: &[u64]| interp(e.label, a))
+}
+
+pub fn reference_with(d: &Diagram, inputs: &[u64], f: &dyn Fn(&Edge, &[u64]) -> Vec<u64>) -> (Vec<u64>, Vec<(u32, Vec<u64>)>) {
     #[derive(Clone, Copy)]
     enum W {
         Input(usize),
@@ -73,25 +90,25 @@ pub fn reference(d: &Diagram, inputs: &[u64]) -> (Vec<u64>, Vec<(u32, Vec<u64>)>
         }
     }
     let mut edge_out: Vec<Option<Vec<u64>>> = vec![None; d.edges.len()];
-    fn node_val(v: usize, d: &Diagram, writer: &[W], inputs: &[u64], edge_out: &mut Vec<Option<Vec<u64>>>) -> u64 {
+    fn node_val(v: usize, d: &Diagram, writer: &[W], inputs: &[u64], edge_out: &mut Vec<Option<Vec<u64>>>, f: &dyn Fn(&Edge, &[u64]) -> Vec<u64>) -> u64 {
         match writer[v] {
             W::Input(i) => inputs[i],
             W::Nobody => 0, // never read in the write-once domain; default value
             W::Edge(e, p) => {
                 if edge_out[e].is_none() {
-                    let args: Vec<u64> = d.edges[e].src.iter().map(|&u| node_val(u, d, writer, inputs, edge_out)).collect();
-                    edge_out[e] = Some(interp(d.edges[e].label, &args));
+                    let args: Vec<u64> = d.edges[e].src.iter().map(|&u| node_val(u, d, writer, inputs, edge_out, f)).collect();
+                    edge_out[e] = Some(f(&d.edges[e], &args));
                 }
                 edge_out[e].as_ref().unwrap()[p]
             }
         }
     }
-    let outs: Vec<u64> = d.t.iter().map(|&v| node_val(v, d, &writer, inputs, &mut edge_out)).collect();
+    let outs: Vec<u64> = d.t.iter().map(|&v| node_val(v, d, &writer, inputs, &mut edge_out, f)).collect();
     let mut apps = vec![];
     for (ei, e) in d.edges.iter().enumerate() {
-        let args: Vec<u64> = e.src.iter().map(|&u| node_val(u, d, &writer, inputs, &mut edge_out)).collect();
+        let args: Vec<u64> = e.src.iter().map(|&u| node_val(u, d, &writer, inputs, &mut edge_out, f)).collect();
         if edge_out[ei].is_none() {
-            edge_out[ei] = Some(interp(e.label, &args));
+            edge_out[ei] = Some(f(e, &args));
         }
         apps.push((e.label, args));
     }
